@@ -993,6 +993,8 @@ def run_path(cfg, path, top, func, is_lemma):
     pnames = [p.arg for p in a.posonlyargs + a.args] + [p.arg for p in a.kwonlyargs]
     missing = [p for p in pnames if p not in env]
     kwargs = {p: env[p] for p in pnames if p in env}
+    if is_lemma and 'ghost' in pnames and 'ghost' not in env:
+        kwargs['ghost'] = path.ghost  # a ghost driver may read (and write) the ghost state, as it can natively
     try:
         result = path.run_func(func, [], kwargs)
     except PyExc as e:
